@@ -91,6 +91,9 @@ Record eng_case := mkEngCase {
   e_believed_ok : bool }.               (* O-C02's verdict: real catalog = catalog of the believed post schema *)
 
 Definition post_schema (c : eng_case) : schema := fold_left apply_ignoring (e_actions c) (e_baseline c).
+(* DESIGN.md Appendix A: the believed constraints of a table are those of its normalisation (an inline declaration left on a
+   column re-promotes a constraint that DeleteColumn removed from the list) *)
+Definition believed_table (t : table_def) : table_def := match normalize t with Ok n => n | Err _ => t end.
 
 (* sub-checks: 1 = exec agrees with libsqlite3 (catalog / first error position);
                2 = catalog_of (believed post schema) vs the real catalog agrees with the Python oracle's verdict *)
@@ -104,7 +107,7 @@ Definition check_eng (c : eng_case) : list nat :=
        | _, _ => [1%nat]
        end)
       ++ (match e_real c with
-          | Ok r => if Bool.eqb (cat_equiv (catalog_of (post_schema c)) r) (e_believed_ok c) then [] else [2%nat]
+          | Ok r => if Bool.eqb (cat_equiv (catalog_of (map believed_table (post_schema c))) r) (e_believed_ok c) then [] else [2%nat]
           | Err _ => []
           end)
   end.
